@@ -172,7 +172,7 @@ theorem unhandled_fails_with_E (env : Env) (fuel : Nat) (states : Json) (name : 
     (retries : Nat) (e msg : Str) (st : St)
     (h : decideError ((listOf (fld state "Retry")).map retrierOf) ((listOf (fld state "Catch")).map catcherOf) e retries = .uncaught) :
     handleErr env (fuel + 1) states name state data ctx retries e msg st =
-      (.failed e (causeOf msg) false, st.fanFailedIf state) := by
+      (.failed e (causeOf msg) false, (st.fanFailedIf state).failTok) := by
   simp [handleErr, h]
 
 /-- a retried state is re-run on its *original raw input* with the incremented retry count -/
@@ -180,7 +180,7 @@ theorem retry_reruns_same_input (env : Env) (fuel : Nat) (states : Json) (name :
     (retries : Nat) (e msg : Str) (st : St) (d : Rat) (k : Nat)
     (h : decideError ((listOf (fld state "Retry")).map retrierOf) ((listOf (fld state "Catch")).map catcherOf) e retries = .retry d k) :
     handleErr env (fuel + 1) states name state data ctx retries e msg st =
-      runFrom env fuel states name data ctx k (st.after d) := by
+      runFrom env fuel states name data ctx k (st.retryAfter name d) := by
   simp [handleErr, h]
 
 /-- a caught error transfers to the catcher's Next with the Error Output {Error, Cause} placed by the
@@ -192,7 +192,7 @@ theorem error_output_placed (env : Env) (fuel : Nat) (states : Json) (name next 
     (hp : applyResultPath data (errorOutput e (causeOf msg)) (match c.resultPath with | none => some ['$'] | some p => p) = .ok data')
     (hl : (render data').length ≤ env.maxData) :
     handleErr env (fuel + 1) states name state data ctx retries e msg st =
-      runFrom env fuel states next data' ctx 0 ((st.fanFailedIf state).exit (stateType state) name data') := by
+      runFrom env fuel states next data' ctx 0 (((st.fanFailedIf state).exit (stateType state) name data').handover next) := by
   have : ¬ env.maxData < (render data').length := by omega
   cases hrp : c.resultPath with
   | none => simp only [hrp] at hp; simp [handleErr, h, hn, hrp, hp, this]
@@ -204,7 +204,7 @@ theorem retry_count_reset (env : Env) (fuel : Nat) (states : Json) (name next : 
     (retries : Nat) (st : St) (hE : isTrue (fld state "End") = false) (hN : fldStr state "Next" = some next)
     (hL : (render out).length ≤ env.maxData) :
     leave env (fuel + 1) states name state raw out ctx retries st =
-      runFrom env fuel states next out ctx 0 (st.exit (stateType state) name out) := by
+      runFrom env fuel states next out ctx 0 ((st.exit (stateType state) name out).handover next) := by
   have : ¬ (render out).length > env.maxData := by omega
   simp [leave, hE, hN, this]
 
@@ -251,7 +251,7 @@ theorem terminal_output_over_limit_retried_on_raw_input (env : Env) (fuel : Nat)
     (h : decideError ((listOf (fld state "Retry")).map retrierOf) ((listOf (fld state "Catch")).map catcherOf)
       (S "States.DataLimitExceeded") retries = .retry d k) :
     leave env (fuel + 2) states name state raw out ctx retries st =
-      runFrom env fuel states name raw ctx k (st.after d) ∧
+      runFrom env fuel states name raw ctx k (st.retryAfter name d) ∧
       k = retries + 1 := by
   rw [terminal_output_over_limit_handled_on_raw_input env (fuel + 1) states name state raw out ctx retries st hE hL]
   exact ⟨retry_reruns_same_input env fuel states name state raw ctx retries _ _ st d k h,
@@ -263,7 +263,7 @@ theorem missing_next_fails (env : Env) (fuel : Nat) (states : Json) (name : Str)
     (state raw out ctx : Json) (retries : Nat) (st : St)
     (hE : isTrue (fld state "End") = false) (hN : fldStr state "Next" = none) :
     leave env (fuel + 2) states name state raw out ctx retries st =
-      (.failed (S "States.Runtime") (some (.str (S "<cause>"))) false, st.fanFailedIf state) := by
+      (.failed (S "States.Runtime") (some (.str (S "<cause>"))) false, (st.fanFailedIf state).failTok) := by
   rw [missing_next_handled_on_raw_input env (fuel + 1) states name state raw out ctx retries st hE hN]
   exact unhandled_fails_with_E env fuel states name state raw ctx retries (S "States.Runtime") (S "m") st
     (states_all_excludes_unrecoverable _ _ (S "States.Runtime") _ (by decide))
@@ -277,7 +277,7 @@ theorem refused_transition_retried_on_raw_input (env : Env) (fuel : Nat) (states
     (h : decideError ((listOf (fld state "Retry")).map retrierOf) ((listOf (fld state "Catch")).map catcherOf)
       (S "States.DataLimitExceeded") retries = .retry d k) :
     leave env (fuel + 2) states name state raw out ctx retries st =
-      runFrom env fuel states name raw ctx k (st.after d) ∧
+      runFrom env fuel states name raw ctx k (st.retryAfter name d) ∧
       k = retries + 1 := by
   rw [refused_transition_handled_on_raw_input env (fuel + 1) states name next state raw out ctx retries st hE hN hL]
   exact ⟨retry_reruns_same_input env fuel states name state raw ctx retries _ _ st d k h,
@@ -296,7 +296,7 @@ theorem refused_transition_caught_on_raw_input (env : Env) (fuel : Nat) (states 
       (match c.resultPath with | none => some ['$'] | some p => p) = .ok raw')
     (hl : (render raw').length ≤ env.maxData) :
     leave env (fuel + 2) states name state raw out ctx retries st =
-      runFrom env fuel states cnext raw' ctx 0 ((st.fanFailedIf state).exit (stateType state) name raw') := by
+      runFrom env fuel states cnext raw' ctx 0 (((st.fanFailedIf state).exit (stateType state) name raw').handover cnext) := by
   rw [refused_transition_handled_on_raw_input env (fuel + 1) states name next state raw out ctx retries st hE hN hL]
   exact error_output_placed env fuel states name cnext state raw raw' ctx retries _ _ st c h hn hp hl
 
@@ -311,7 +311,7 @@ theorem refused_transition_caught_null_resultpath (env : Env) (fuel : Nat) (stat
     (hn : c.next = some cnext) (hrp : c.resultPath = some none)
     (hraw : raw ≠ .null) (hl : (render raw).length ≤ env.maxData) :
     leave env (fuel + 2) states name state raw out ctx retries st =
-      runFrom env fuel states cnext raw ctx 0 ((st.fanFailedIf state).exit (stateType state) name raw) := by
+      runFrom env fuel states cnext raw ctx 0 (((st.fanFailedIf state).exit (stateType state) name raw).handover cnext) := by
   refine refused_transition_caught_on_raw_input env fuel states name next cnext state raw out raw ctx retries st c
     hE hN hL h hn ?_ hl
   simp [hrp, applyResultPath, hraw]
@@ -328,7 +328,7 @@ theorem fanout_refused_transition_keeps_retry_count (env : Env) (fuel : Nat) (st
     (h : decideError ((listOf (fld state "Retry")).map retrierOf) ((listOf (fld state "Catch")).map catcherOf)
       (S "States.DataLimitExceeded") retries = .retry d k) :
     joinAndLeave env (fuel + 3) states name state data ctx retries (.ok results) st =
-      runFrom env fuel states name data ctx (retries + 1) (st.after d) := by
+      runFrom env fuel states name data ctx (retries + 1) (st.retryAfter name d) := by
   have h2 := refused_transition_retried_on_raw_input env fuel states name next state data out ctx retries st d k
     hE hN hL h
   rw [← h2.2, ← h2.1]
@@ -352,10 +352,10 @@ theorem task_refused_transition_retried_on_raw_input (env : Env) (fuel : Nat) (s
       (S "States.DataLimitExceeded") retries = .retry d k) :
     runState env (fuel + 3) states name state data ctx retries st =
       runFrom env fuel states name data ctx (retries + 1)
-        ((st.taskCall (bump st.counts (fn, params)).2 ((fldStr state "Resource").getD []) params
-          (replyEv env.maxData (env.task fn params (bump st.counts (fn, params)).1)) tEnd).after d) := by
+        (((st.closeKeep.request false).taskCall (bump st.counts (fn, params)).2 ((fldStr state "Resource").getD []) params
+          (replyEv env.maxData (env.task fn params (bump st.counts (fn, params)).1)) tEnd).retryAfter name d) := by
   have h2 := refused_transition_retried_on_raw_input env fuel states name next state data out ctx retries
-    (st.taskCall (bump st.counts (fn, params)).2 ((fldStr state "Resource").getD []) params
+    ((st.closeKeep.request false).taskCall (bump st.counts (fn, params)).2 ((fldStr state "Resource").getD []) params
           (replyEv env.maxData (env.task fn params (bump st.counts (fn, params)).1)) tEnd) d k hE hN hL hd
   rw [← h2.2, ← h2.1]
   have h1 : (S "Task" = S "Pass") = False := by decide
@@ -414,14 +414,14 @@ example (fuel : Nat) (states ctx : Json) (st : St) :
 /-- … which re-runs `T` on `rawIn` with retry count 1 … -/
 example (fuel : Nat) (states ctx : Json) (st : St) :
     ∃ d, leave envS (fuel + 2) states (S "T") tState rawIn bigOut ctx 0 st =
-      runFrom envS fuel states (S "T") rawIn ctx 1 (st.after d) := by
+      runFrom envS fuel states (S "T") rawIn ctx 1 (st.retryAfter (S "T") d) := by
   obtain ⟨d, hd⟩ := hRetry0
   exact ⟨d, (refused_transition_retried_on_raw_input envS fuel states (S "T") (S "N") tState rawIn bigOut ctx 0 st d 1
     hEnd hNext hBig hd).1⟩
 /-- … and refused again at retry count 1: caught, `C` is entered with exactly `rawIn` -/
 example (fuel : Nat) (states ctx : Json) (st : St) :
     leave envS (fuel + 2) states (S "T") tState rawIn bigOut ctx 1 st =
-      runFrom envS fuel states (S "C") rawIn ctx 0 (st.exit (S "Task") (S "T") rawIn) :=
+      runFrom envS fuel states (S "C") rawIn ctx 0 ((st.exit (S "Task") (S "T") rawIn).handover (S "C")) :=
   refused_transition_caught_null_resultpath envS fuel states (S "T") (S "N") (S "C") tState rawIn bigOut ctx 1 st
     theCatcher hEnd hNext hBig hCaught1 rfl rfl (by decide) (by decide)
 /-- the whole state, from `runState` (hypotheses of `task_refused_transition_retried_on_raw_input`): the reply
@@ -429,8 +429,8 @@ arrives after the worker's 10 ms, the re-run starts the Retrier's interval later
 example (fuel : Nat) (states : Json) :
     ∃ d, runState envS (fuel + 3) states (S "T") tState rawIn (.obj []) 0 {} =
       runFrom envS fuel states (S "T") rawIn (.obj []) 1
-        (({ } : St).taskCall [((S "f", rawIn), 1)] (S "arn:aws:rpcmessage:local::function:f") rawIn
-          (.lambdaSucceeded reply) 10 |>.after d) := by
+        (((({ } : St).closeKeep.request false).taskCall [((S "f", rawIn), 1)] (S "arn:aws:rpcmessage:local::function:f") rawIn
+          (.lambdaSucceeded reply) 10).retryAfter (S "T") d) := by
   obtain ⟨d, hd⟩ := hRetry0
   exact ⟨d, task_refused_transition_retried_on_raw_input envS fuel states (S "T") (S "f") (S "N") tState rawIn (.obj [])
     rawIn rawIn reply reply bigOut 0 {} d 1 10 (by rfl) (by rfl) (by rfl) (by rfl) (by decide +kernel) (by rfl) (by rfl) (by rfl)
@@ -439,7 +439,7 @@ example (fuel : Nat) (states : Json) :
 `fanout_refused_transition_keeps_retry_count`; `tState`'s Type plays no part in the join) -/
 example (fuel : Nat) (states : Json) (st : St) :
     ∃ d, joinAndLeave envS (fuel + 3) states (S "T") tState rawIn (.obj []) 0 (.ok [reply]) st =
-      runFrom envS fuel states (S "T") rawIn (.obj []) 1 (st.after d) := by
+      runFrom envS fuel states (S "T") rawIn (.obj []) 1 (st.retryAfter (S "T") d) := by
   obtain ⟨d, hd⟩ := hRetry0
   have hb : (render (.obj [(S "a", .num 1), (S "r", .arr [reply])])).length > envS.maxData := by decide
   exact ⟨d, fanout_refused_transition_keeps_retry_count envS fuel states (S "T") (S "N") tState rawIn (.obj [])
@@ -457,7 +457,7 @@ private def tEnd : Json := .obj [
   (S "Retry", .arr [.obj [(S "ErrorEquals", .arr [.str (S "States.DataLimitExceeded")]), (S "MaxAttempts", .num 1)]])]
 example (fuel : Nat) (states ctx : Json) (st : St) :
     ∃ d, leave envS (fuel + 2) states (S "T") tEnd rawIn bigOut ctx 0 st =
-      runFrom envS fuel states (S "T") rawIn ctx 1 (st.after d) :=
+      runFrom envS fuel states (S "T") rawIn ctx 1 (st.retryAfter (S "T") d) :=
   ⟨_, (terminal_output_over_limit_retried_on_raw_input envS fuel states (S "T") tEnd rawIn bigOut ctx 0 st _ 1
     (by rfl) hBig rfl).1⟩
 /-- the whole run of the one-state machine: two attempts, then FAILED with States.DataLimitExceeded -/
